@@ -1,7 +1,12 @@
+// h_c15: calls the exported protocol/header API (checksum, TCP option encoders and parsers, fixed
+// header Encode/accessors/checksum helpers) on generated inputs and prints one Coq term of type
+// NP.Corr.C15.case per line (inputs + what the implementation returned; panics are caught and
+// reported in the case).  Every random choice derives from gen.New(seed).
 package main
 
 import (
 	"bufio"
+	"encoding/binary"
 	"flag"
 	"fmt"
 	"io"
@@ -11,9 +16,26 @@ import (
 
 	"aaverif/internal/gen"
 
+	"github.com/brewlin/net-protocol/pkg/seqnum"
+	tcpip "github.com/brewlin/net-protocol/protocol"
 	"github.com/brewlin/net-protocol/protocol/header"
 )
 
+var w *bufio.Writer
+var r *gen.Rng
+var counts = map[string]int{}
+
+func emit(kind string, format string, a ...interface{}) {
+	counts[kind]++
+	fmt.Fprintf(w, format+"\n", a...)
+}
+
+func zi(x int64) string {
+	if x < 0 {
+		return fmt.Sprintf("(%d)", x)
+	}
+	return fmt.Sprintf("%d", x)
+}
 func zl(b []byte) string {
 	var sb strings.Builder
 	sb.WriteByte('[')
@@ -26,18 +48,867 @@ func zl(b []byte) string {
 	sb.WriteByte(']')
 	return sb.String()
 }
+func il(b []int64) string {
+	var sb strings.Builder
+	sb.WriteByte('[')
+	for i, x := range b {
+		if i > 0 {
+			sb.WriteByte(';')
+		}
+		sb.WriteString(zi(x))
+	}
+	sb.WriteByte(']')
+	return sb.String()
+}
+func ll(b [][]int64) string {
+	var sb strings.Builder
+	sb.WriteByte('[')
+	for i, x := range b {
+		if i > 0 {
+			sb.WriteByte(';')
+		}
+		sb.WriteString(il(x))
+	}
+	sb.WriteByte(']')
+	return sb.String()
+}
+func bs(x bool) string {
+	if x {
+		return "true"
+	}
+	return "false"
+}
+func b2i(x bool) int64 {
+	if x {
+		return 1
+	}
+	return 0
+}
+func i64s(b []byte) []int64 {
+	o := make([]int64, len(b))
+	for i, x := range b {
+		o[i] = int64(x)
+	}
+	return o
+}
+
+// exact returns a copy of b with cap == len, so that slice expressions panic where the model says.
+func exact(b []byte) []byte {
+	c := make([]byte, len(b))
+	copy(c, b)
+	return c[:len(c):len(c)]
+}
+
+func try(f func()) (panicked bool) {
+	defer func() {
+		if e := recover(); e != nil {
+			panicked = true
+		}
+	}()
+	f()
+	return false
+}
+
+// acc runs one accessor; [-1] when it panicked.
+func acc(f func() []int64) []int64 {
+	var o []int64
+	if try(func() { o = f() }) {
+		return []int64{-1}
+	}
+	if o == nil {
+		o = []int64{}
+	}
+	return o
+}
+func one(x int64) []int64 { return []int64{x} }
+
+var b16 = []uint32{0, 1, 2, 0xff, 0x100, 0x101, 0x7fff, 0x8000, 0xfffe, 0xffff, 0x1234, 0xff00}
+var b32 = []uint32{0, 1, 0xff, 0x100, 0xffff, 0x10000, 0x7fffffff, 0x80000000, 0xfffffffe, 0xffffffff, 0x01020304}
+var b8 = []uint32{0, 1, 2, 0x0f, 0x10, 0x7f, 0x80, 0xfe, 0xff}
+
+func p16() uint16 { return uint16(r.Pick32(b16)) }
+func p32() uint32 { return r.Pick32(b32) }
+func p8() uint8   { return uint8(r.Pick32(b8)) }
+
+// content kinds for buffers
+func content(kind, n int) []byte {
+	b := make([]byte, n)
+	switch kind {
+	case 0:
+	case 1:
+		for i := range b {
+			b[i] = 0xff
+		}
+	default:
+		b = r.Bytes(n)
+	}
+	return b
+}
+
+// ---------------------------------------------------------------- checksum
+var inits = []uint16{0, 1, 0xff, 0x100, 0x7fff, 0x8000, 0xfffe, 0xffff}
+
+func genChecksum(tier string) {
+	ck := func(b []byte, init uint16) {
+		emit("checksum", "CChecksum %s %d %d", zl(b), init, header.Checksum(b, init))
+	}
+	maxLen := 600
+	for l := 0; l <= maxLen; l++ {
+		for k := 0; k < 3; k++ {
+			init := uint16(r.U32())
+			if j := (l*3 + k) % (len(inits) + 1); j < len(inits) {
+				init = inits[j]
+			}
+			ck(content(k, l), init)
+		}
+	}
+	// short buffers x every boundary initial value
+	for l := 0; l <= 33; l++ {
+		for k := 0; k < 3; k++ {
+			b := content(k, l)
+			for _, init := range inits {
+				ck(b, init)
+			}
+		}
+	}
+	if tier == "thorough" {
+		for l := 601; l <= 1600; l += 1 {
+			ck(content(2, l), uint16(r.U32()))
+		}
+		for _, l := range []int{4095, 4096, 4097, 16383, 16384, 16385, 65534, 65535, 65536} {
+			for k := 0; k < 3; k++ {
+				ck(content(k, l), inits[(l+k)%len(inits)])
+			}
+		}
+		// all 2^16 initial values on short buffers (sampled stride to keep it bounded)
+		for init := 0; init < 65536; init += 7 {
+			ck(content(2, init%9), uint16(init))
+		}
+	}
+	// ChecksumCombine: boundary lattice + random
+	for _, a := range b16 {
+		for _, b := range b16 {
+			emit("combine", "CCombine %d %d %d", a, b, header.ChecksumCombine(uint16(a), uint16(b)))
+		}
+	}
+	n := 300
+	if tier == "thorough" {
+		n = 20000
+	}
+	for i := 0; i < n; i++ {
+		a, b := p16(), p16()
+		emit("combine", "CCombine %d %d %d", a, b, header.ChecksumCombine(a, b))
+	}
+	// chunked summation, the way callers walk a VectorisedView
+	for i := 0; i < 250; i++ {
+		nc := 1 + r.Intn(5)
+		var sb strings.Builder
+		sb.WriteByte('[')
+		init := p16()
+		x := init
+		for j := 0; j < nc; j++ {
+			l := r.Intn(21)
+			if i%2 == 0 && j < nc-1 {
+				l &^= 1
+			}
+			c := r.Bytes(l)
+			x = header.Checksum(c, x)
+			if j > 0 {
+				sb.WriteByte(';')
+			}
+			sb.WriteString(zl(c))
+		}
+		sb.WriteByte(']')
+		emit("chunks", "CChunks %s %d %d", sb.String(), init, x)
+	}
+	// PseudoHeaderChecksum
+	for i := 0; i < 120; i++ {
+		ls, ld := 4, 4
+		switch i % 4 {
+		case 1:
+			ls, ld = 16, 16
+		case 2:
+			ls, ld = r.Intn(18), r.Intn(18)
+		}
+		s, d := r.Bytes(ls), r.Bytes(ld)
+		proto := uint32(p8())
+		if i%3 == 0 {
+			proto = []uint32{6, 17, 1, 58}[r.Intn(4)]
+		}
+		x := header.PseudoHeaderChecksum(tcpip.TransportProtocolNumber(proto), tcpip.Address(s), tcpip.Address(d))
+		emit("pseudo", "CPseudo %d %s %s %d", proto, zl(s), zl(d), x)
+	}
+	// a packet carrying the complemented sum verifies
+	for i := 0; i < 250; i++ {
+		l := 2 + r.Intn(99)
+		pkt := content(i%3, l)
+		off := 2 * r.Intn(l/2)
+		init := p16()
+		b := exact(pkt)
+		b[off], b[off+1] = 0, 0
+		c := header.Checksum(b, init)
+		binary.BigEndian.PutUint16(b[off:], ^c)
+		r2 := header.Checksum(b, init)
+		emit("verify", "CVerify %s %d %d %d %d", zl(pkt), off, init, c, r2)
+	}
+}
+
+// ---------------------------------------------------------------- TCP options
+func synList(o header.TCPSynOptions) []int64 {
+	return []int64{int64(o.MSS), int64(o.WS), b2i(o.TS), int64(o.TSVal), int64(o.TSEcr), b2i(o.SACKPermitted)}
+}
+func optList(o header.TCPOptions) []int64 {
+	l := []int64{b2i(o.TS), int64(o.TSVal), int64(o.TSEcr), int64(len(o.SACKBlocks))}
+	for _, b := range o.SACKBlocks {
+		l = append(l, int64(b.Start), int64(b.End))
+	}
+	return l
+}
+func parseSyn(opts []byte, isAck bool) (bool, []int64) {
+	var o header.TCPSynOptions
+	if try(func() { o = header.ParseSynOptions(exact(opts), isAck) }) {
+		return true, []int64{}
+	}
+	return false, synList(o)
+}
+func parseOpt(opts []byte) (bool, []int64) {
+	var o header.TCPOptions
+	if try(func() { o = header.ParseTCPOptions(exact(opts)) }) {
+		return true, []int64{}
+	}
+	return false, optList(o)
+}
+
+// an item: [0] NOP, [1 mss], [2 ws], [3 v e], [4] SACKPermitted, [5 s1 e1 ...] SACK blocks
+func randItem(valid bool) []int64 {
+	switch r.Intn(6) {
+	case 0:
+		return []int64{0}
+	case 1:
+		m := int64(p16())
+		if valid && m == 0 {
+			m = 1460
+		}
+		return []int64{1, m}
+	case 2:
+		ws := int64(r.Intn(15))
+		if !valid && r.Intn(2) == 0 {
+			ws = int64(p8())
+		}
+		return []int64{2, ws}
+	case 3:
+		return []int64{3, int64(p32()), int64(p32())}
+	case 4:
+		return []int64{4}
+	default:
+		n := 1 + r.Intn(4)
+		if !valid {
+			n = r.Intn(7)
+		}
+		it := []int64{5}
+		for i := 0; i < n; i++ {
+			it = append(it, int64(p32()), int64(p32()))
+		}
+		return it
+	}
+}
+
+// encodeItem calls the real encoder for one item on b and returns the int it returned.
+func encodeItem(it []int64, b []byte) int {
+	switch it[0] {
+	case 0:
+		return header.EncodeNOP(b)
+	case 1:
+		return header.EncodeMSSOption(uint32(it[1]), b)
+	case 2:
+		return header.EncodeWSOption(int(it[1]), b)
+	case 3:
+		return header.EncodeTSOption(uint32(it[1]), uint32(it[2]), b)
+	case 4:
+		return header.EncodeSACKPermittedOption(b)
+	default:
+		var bl []header.SACKBlock
+		for i := 1; i+1 < len(it); i += 2 {
+			bl = append(bl, header.SACKBlock{Start: seqnum.Value(it[i]), End: seqnum.Value(it[i+1])})
+		}
+		return header.EncodeSACKBlocks(bl, b)
+	}
+}
+
+func itemsStr(items [][]int64) string { return ll(items) }
+
+// wireOf encodes a valid item sequence with the real encoders into a fresh buffer.
+func wireOf(items [][]int64) []byte {
+	buf := make([]byte, 256)
+	off := 0
+	for _, it := range items {
+		off += encodeItem(it, buf[off:])
+	}
+	return buf[:off]
+}
+
+func genOptions(tier string) {
+	n := 1
+	if tier == "thorough" {
+		n = 12
+	}
+	// (1) item sequences through the encoders, then both parsers
+	for i := 0; i < 700*n; i++ {
+		valid := i%4 != 3
+		k := r.Intn(7)
+		items := make([][]int64, k)
+		for j := range items {
+			items[j] = randItem(valid)
+		}
+		size := 40
+		switch i % 5 {
+		case 1:
+			size = r.Intn(41)
+		case 2:
+			size = 60
+		}
+		buf := r.Bytes(size)
+		out := exact(buf)
+		off := 0
+		for _, it := range items {
+			off += encodeItem(it, out[off:])
+		}
+		isAck := r.Bool()
+		_, sr := parseSyn(out[:off], isAck)
+		_, or := parseOpt(out[:off])
+		emit("items", "CItems %s %s %s %d %s %s %s", itemsStr(items), zl(buf), zl(out), off, bs(isAck), il(sr), il(or))
+	}
+	// (2) parsers on valid / truncated / mutated / random option bytes
+	for i := 0; i < 1800*n; i++ {
+		var opts []byte
+		switch i % 6 {
+		case 0, 1: // valid wire
+			k := 1 + r.Intn(6)
+			items := make([][]int64, k)
+			for j := range items {
+				items[j] = randItem(true)
+			}
+			opts = wireOf(items)
+		case 2: // truncated
+			k := 1 + r.Intn(5)
+			items := make([][]int64, k)
+			for j := range items {
+				items[j] = randItem(true)
+			}
+			opts = wireOf(items)
+			opts = opts[:r.Intn(len(opts)+1)]
+		case 3: // mutated: one or two bytes changed (often a length byte)
+			k := 1 + r.Intn(5)
+			items := make([][]int64, k)
+			for j := range items {
+				items[j] = randItem(true)
+			}
+			opts = exact(wireOf(items))
+			for m := 0; m <= r.Intn(2); m++ {
+				if len(opts) > 0 {
+					opts[r.Intn(len(opts))] = []byte{0, 1, 2, 3, 4, 5, 8, 10, 18, 26, 34, 255, byte(r.U32())}[r.Intn(13)]
+				}
+			}
+		case 4: // noise biased to option kinds and small lengths
+			l := r.Intn(41)
+			opts = make([]byte, l)
+			for j := range opts {
+				opts[j] = []byte{0, 1, 1, 2, 3, 4, 5, 8, 2, 3, 4, 10, 18, 26, 34, 6, 12, byte(r.U32()), byte(r.U32())}[r.Intn(19)]
+			}
+		default: // pure noise
+			opts = r.Bytes(r.Intn(61))
+		}
+		isAck := r.Bool()
+		p, sr := parseSyn(opts, isAck)
+		emit("syn", "CSyn %s %s %s %s", zl(opts), bs(isAck), bs(p), il(sr))
+		p, or := parseOpt(opts)
+		emit("opt", "COpt %s %s %s", zl(opts), bs(p), il(or))
+	}
+	// every kind byte with nothing / too little behind it, and every length byte after every known kind
+	both := func(opts []byte) {
+		p, sr := parseSyn(opts, true)
+		emit("syn", "CSyn %s true %s %s", zl(opts), bs(p), il(sr))
+		p, or := parseOpt(opts)
+		emit("opt", "COpt %s %s %s", zl(opts), bs(p), il(or))
+	}
+	zeros := make([]byte, 40)
+	for k := 0; k < 256; k++ {
+		both([]byte{byte(k)})
+		both([]byte{1, byte(k)})
+		both([]byte{byte(k), 2})
+		both([]byte{byte(k), 3, 7})
+		for _, kind := range []byte{2, 3, 4, 5, 8, 9} {
+			// length byte k, with exactly k-2, k-3 and 38 bytes behind it
+			for _, body := range []int{k - 2, k - 3, 38} {
+				if body < 0 || body > 38 {
+					continue
+				}
+				both(append([]byte{kind, byte(k)}, zeros[:body]...))
+			}
+		}
+	}
+	// (3) makeSynOptions replayed with the real encoders
+	for i := 0; i < 320*n; i++ {
+		mss := int64(p16())
+		if mss == 0 {
+			mss = 536
+		}
+		ws := int64(r.Intn(16)) - 1
+		ts, sp := (i/2)%2 == 0, i%2 == 0
+		tsv, tse := p32(), p32()
+		buf := r.Bytes(40)
+		options := exact(buf)
+		offset := header.EncodeMSSOption(uint32(mss), options)
+		if ts && sp {
+			offset += header.EncodeSACKPermittedOption(options[offset:])
+			offset += header.EncodeTSOption(tsv, tse, options[offset:])
+		} else if ts {
+			offset += header.EncodeNOP(options[offset:])
+			offset += header.EncodeNOP(options[offset:])
+			offset += header.EncodeTSOption(tsv, tse, options[offset:])
+		} else if sp {
+			offset += header.EncodeNOP(options[offset:])
+			offset += header.EncodeNOP(options[offset:])
+			offset += header.EncodeSACKPermittedOption(options[offset:])
+		}
+		if ws >= 0 {
+			offset += header.EncodeNOP(options[offset:])
+			offset += header.EncodeWSOption(int(ws), options[offset:])
+		}
+		pad := header.AddTCPOptionPadding(options, offset)
+		isAck := r.Bool()
+		_, sr := parseSyn(options[:offset], isAck)
+		o := []int64{mss, ws, b2i(ts), int64(tsv), int64(tse), b2i(sp)}
+		emit("synmake", "CSynMake %s %s %s %d %s %s", il(o), zl(buf), zl(options[:offset]), pad, bs(isAck), il(sr))
+	}
+	// (4) makeOptions replayed
+	for i := 0; i < 320*n; i++ {
+		tsOk, sp := (i/2)%2 == 0, i%2 == 0
+		tsv, tse := p32(), p32()
+		nb := r.Intn(7)
+		var bl []header.SACKBlock
+		var flat []int64
+		for j := 0; j < nb; j++ {
+			s, e := p32(), p32()
+			bl = append(bl, header.SACKBlock{Start: seqnum.Value(s), End: seqnum.Value(e)})
+			flat = append(flat, int64(s), int64(e))
+		}
+		buf := r.Bytes(40)
+		options := exact(buf)
+		offset := 0
+		if tsOk {
+			offset += header.EncodeNOP(options[offset:])
+			offset += header.EncodeNOP(options[offset:])
+			offset += header.EncodeTSOption(tsv, tse, options[offset:])
+		}
+		if sp && len(bl) > 0 {
+			offset += header.EncodeNOP(options[offset:])
+			offset += header.EncodeNOP(options[offset:])
+			offset += header.EncodeSACKBlocks(bl, options[offset:])
+		}
+		pad := header.AddTCPOptionPadding(options, offset)
+		_, or := parseOpt(options[:offset])
+		emit("optmake", "COptMake %s %d %d %s %s %s %s %d %s", bs(tsOk), tsv, tse, bs(sp), il(flat), zl(buf), zl(options[:offset]), pad, il(or))
+	}
+	// (5) AddTCPOptionPadding on every offset of a 40- and a 43-byte buffer
+	for _, size := range []int{40, 43, 3} {
+		for off := 0; off <= size; off++ {
+			buf := r.Bytes(size)
+			out := exact(buf)
+			p := 0
+			pan := try(func() { p = header.AddTCPOptionPadding(out, off) })
+			if pan {
+				out, p = []byte{}, 0
+			}
+			emit("pad", "CPad %s %d %s %s %d", zl(buf), off, bs(pan), zl(out), p)
+		}
+	}
+}
+
+// ---------------------------------------------------------------- fixed headers
+var hdrSize = map[int]int{1: 20, 2: 40, 3: 8, 4: 20, 5: 8, 6: 4, 7: 4, 8: 14, 9: 28}
+
+func addr(n int, wf bool) []byte {
+	if !wf && r.Intn(3) == 0 {
+		return r.Bytes(r.Intn(2*n + 2))
+	}
+	if r.Intn(4) == 0 {
+		return content(r.Intn(2), n)
+	}
+	return r.Bytes(n)
+}
+
+// genFields returns a field list for header kind; wf=false makes some field leave the domain on
+// which Encode is injective (or an address of the wrong length).
+func genFields(kind int, wf bool) [][]int64 {
+	s := func(x uint32) []int64 { return one(int64(x)) }
+	switch kind {
+	case 1:
+		ihl := uint32(4 * r.Intn(16))
+		fo := uint32(p16()) &^ 7
+		fl := uint32(r.Intn(8))
+		if !wf {
+			switch r.Intn(4) {
+			case 0:
+				ihl = uint32(p8())
+			case 1:
+				fo = uint32(p16())
+			case 2:
+				fl = uint32(p8())
+			}
+		}
+		return [][]int64{s(ihl), s(uint32(p8())), s(uint32(p16())), s(uint32(p16())), s(fl), s(fo), s(uint32(p8())),
+			s(uint32(p8())), s(uint32(p16())), i64s(addr(4, wf)), i64s(addr(4, wf))}
+	case 2:
+		flow := p32() & 0xfffff
+		if !wf && r.Intn(2) == 0 {
+			flow = p32()
+		}
+		return [][]int64{s(uint32(p8())), s(flow), s(uint32(p16())), s(uint32(p8())), s(uint32(p8())), i64s(addr(16, wf)), i64s(addr(16, wf))}
+	case 3:
+		fo := uint32(p16()) & 0x1fff
+		if !wf {
+			fo = uint32(p16()) | 0x2000
+		}
+		return [][]int64{s(uint32(p8())), s(fo), one(b2i(r.Bool())), s(p32())}
+	case 4:
+		do := uint32(4 * r.Intn(16))
+		if !wf {
+			do = uint32(p8())
+		}
+		return [][]int64{s(uint32(p16())), s(uint32(p16())), s(p32()), s(p32()), s(do), s(uint32(p8())), s(uint32(p16())), s(uint32(p16())), s(uint32(p16()))}
+	case 5:
+		return [][]int64{s(uint32(p16())), s(uint32(p16())), s(uint32(p16())), s(uint32(p16()))}
+	case 6, 7:
+		return [][]int64{s(uint32(p8())), s(uint32(p8())), s(uint32(p16()))}
+	case 8:
+		ty := uint32(p16())
+		if !wf {
+			ty = p32()
+		}
+		return [][]int64{i64s(addr(6, wf)), i64s(addr(6, wf)), s(ty)}
+	default:
+		return [][]int64{s(uint32(p16())), i64s(addr(6, wf)), i64s(addr(4, wf)), i64s(addr(6, wf)), i64s(addr(4, wf))}
+	}
+}
+
+func by(l []int64) []byte {
+	o := make([]byte, len(l))
+	for i, x := range l {
+		o[i] = byte(x)
+	}
+	return o
+}
+
+// encode runs the library's Encode (or setter sequence) for header kind on b.
+func encode(kind int, b []byte, f [][]int64) {
+	switch kind {
+	case 1:
+		header.IPv4(b).Encode(&header.IPv4Fields{IHL: uint8(f[0][0]), TOS: uint8(f[1][0]), TotalLength: uint16(f[2][0]),
+			ID: uint16(f[3][0]), Flags: uint8(f[4][0]), FragmentOffset: uint16(f[5][0]), TTL: uint8(f[6][0]),
+			Protocol: uint8(f[7][0]), Checksum: uint16(f[8][0]), SrcAddr: tcpip.Address(by(f[9])), DstAddr: tcpip.Address(by(f[10]))})
+	case 2:
+		header.IPv6(b).Encode(&header.IPv6Fields{TrafficClass: uint8(f[0][0]), FlowLabel: uint32(f[1][0]), PayloadLength: uint16(f[2][0]),
+			NextHeader: uint8(f[3][0]), HopLimit: uint8(f[4][0]), SrcAddr: tcpip.Address(by(f[5])), DstAddr: tcpip.Address(by(f[6]))})
+	case 3:
+		header.IPv6Fragment(b).Encode(&header.IPv6FragmentFields{NextHeader: uint8(f[0][0]), FragmentOffset: uint16(f[1][0]),
+			M: f[2][0] != 0, Identification: uint32(f[3][0])})
+	case 4:
+		header.TCP(b).Encode(&header.TCPFields{SrcPort: uint16(f[0][0]), DstPort: uint16(f[1][0]), SeqNum: uint32(f[2][0]),
+			AckNum: uint32(f[3][0]), DataOffset: uint8(f[4][0]), Flags: uint8(f[5][0]), WindowSize: uint16(f[6][0]),
+			Checksum: uint16(f[7][0]), UrgentPointer: uint16(f[8][0])})
+	case 5:
+		header.UDP(b).Encode(&header.UDPFields{SrcPort: uint16(f[0][0]), DstPort: uint16(f[1][0]), Length: uint16(f[2][0]), Checksum: uint16(f[3][0])})
+	case 6:
+		h := header.ICMPv4(b)
+		h.SetType(header.ICMPv4Type(f[0][0]))
+		h.SetCode(byte(f[1][0]))
+		h.SetChecksum(uint16(f[2][0]))
+	case 7:
+		h := header.ICMPv6(b)
+		h.SetType(header.ICMPv6Type(f[0][0]))
+		h.SetCode(byte(f[1][0]))
+		h.SetChecksum(uint16(f[2][0]))
+	case 8:
+		header.Ethernet(b).Encode(&header.EthernetFields{SrcAddr: tcpip.LinkAddress(by(f[0])), DstAddr: tcpip.LinkAddress(by(f[1])),
+			Type: tcpip.NetworkProtocolNumber(uint32(f[2][0]))})
+	default:
+		h := header.ARP(b)
+		h.SetIpv4OverEthernet()
+		h.SetOp(header.ARPOp(f[0][0]))
+		copy(h.HardwareAddressSender(), by(f[1]))
+		copy(h.ProtocolAddressSender(), by(f[2]))
+		copy(h.HardwareAddressTarget(), by(f[3]))
+		copy(h.ProtocolAddressTarget(), by(f[4]))
+	}
+}
+
+// accessors runs every accessor of header kind on b.
+func accessors(kind int, b []byte) [][]int64 {
+	switch kind {
+	case 1:
+		h := header.IPv4(b)
+		return [][]int64{
+			acc(func() []int64 { return one(int64(h.HeaderLength())) }),
+			acc(func() []int64 { return one(int64(h.ID())) }),
+			acc(func() []int64 { return one(int64(h.Protocol())) }),
+			acc(func() []int64 { return one(int64(h.Flags())) }),
+			acc(func() []int64 { return one(int64(h.TTL())) }),
+			acc(func() []int64 { return one(int64(h.FragmentOffset())) }),
+			acc(func() []int64 { return one(int64(h.TotalLength())) }),
+			acc(func() []int64 { return one(int64(h.Checksum())) }),
+			acc(func() []int64 { return i64s([]byte(h.SourceAddress())) }),
+			acc(func() []int64 { return i64s([]byte(h.DestinationAddress())) }),
+			acc(func() []int64 { t, _ := h.TOS(); return one(int64(t)) }),
+			acc(func() []int64 { return one(int64(h.PayloadLength())) }),
+			acc(func() []int64 { return i64s(h.Payload()) }),
+			acc(func() []int64 { return one(int64(header.IPVersion(b))) }),
+			acc(func() []int64 { return one(int64(h.CalculateChecksum())) }),
+		}
+	case 2:
+		h := header.IPv6(b)
+		return [][]int64{
+			acc(func() []int64 { return one(int64(h.PayloadLength())) }),
+			acc(func() []int64 { return one(int64(h.HopLimit())) }),
+			acc(func() []int64 { return one(int64(h.NextHeader())) }),
+			acc(func() []int64 { return i64s([]byte(h.SourceAddress())) }),
+			acc(func() []int64 { return i64s([]byte(h.DestinationAddress())) }),
+			acc(func() []int64 { t, l := h.TOS(); return []int64{int64(t), int64(l)} }),
+			acc(func() []int64 { return i64s(h.Payload()) }),
+			acc(func() []int64 { return one(int64(header.IPVersion(b))) }),
+		}
+	case 3:
+		h := header.IPv6Fragment(b)
+		return [][]int64{
+			acc(func() []int64 { return one(int64(h.NextHeader())) }),
+			acc(func() []int64 { return one(int64(h.FragmentOffset())) }),
+			acc(func() []int64 { return one(b2i(h.More())) }),
+			acc(func() []int64 { return one(int64(h.ID())) }),
+			acc(func() []int64 { return i64s(h.Payload()) }),
+			acc(func() []int64 { return one(b2i(h.IsValid())) }),
+		}
+	case 4:
+		h := header.TCP(b)
+		return [][]int64{
+			acc(func() []int64 { return one(int64(h.SourcePort())) }),
+			acc(func() []int64 { return one(int64(h.DestinationPort())) }),
+			acc(func() []int64 { return one(int64(h.SequenceNumber())) }),
+			acc(func() []int64 { return one(int64(h.AckNumber())) }),
+			acc(func() []int64 { return one(int64(h.DataOffset())) }),
+			acc(func() []int64 { return one(int64(h.Flags())) }),
+			acc(func() []int64 { return one(int64(h.WindowSize())) }),
+			acc(func() []int64 { return one(int64(h.Checksum())) }),
+			acc(func() []int64 { return i64s(h.Payload()) }),
+			acc(func() []int64 { return i64s(h.Options()) }),
+		}
+	case 5:
+		h := header.UDP(b)
+		return [][]int64{
+			acc(func() []int64 { return one(int64(h.SourcePort())) }),
+			acc(func() []int64 { return one(int64(h.DestinationPort())) }),
+			acc(func() []int64 { return one(int64(h.Length())) }),
+			acc(func() []int64 { return one(int64(h.Checksum())) }),
+			acc(func() []int64 { return i64s(h.Payload()) }),
+		}
+	case 6:
+		h := header.ICMPv4(b)
+		return [][]int64{
+			acc(func() []int64 { return one(int64(h.Type())) }),
+			acc(func() []int64 { return one(int64(h.Code())) }),
+			acc(func() []int64 { return one(int64(h.Checksum())) }),
+			acc(func() []int64 { return i64s(h.Payload()) }),
+		}
+	case 7:
+		h := header.ICMPv6(b)
+		return [][]int64{
+			acc(func() []int64 { return one(int64(h.Type())) }),
+			acc(func() []int64 { return one(int64(h.Code())) }),
+			acc(func() []int64 { return one(int64(h.Checksum())) }),
+			acc(func() []int64 { return i64s(h.Payload()) }),
+		}
+	case 8:
+		h := header.Ethernet(b)
+		return [][]int64{
+			acc(func() []int64 { return i64s([]byte(h.SourceAddress())) }),
+			acc(func() []int64 { return i64s([]byte(h.DestinationAddress())) }),
+			acc(func() []int64 { return one(int64(h.Type())) }),
+		}
+	default:
+		h := header.ARP(b)
+		return [][]int64{
+			acc(func() []int64 { return one(int64(h.Op())) }),
+			acc(func() []int64 { return i64s(h.HardwareAddressSender()) }),
+			acc(func() []int64 { return i64s(h.ProtocolAddressSender()) }),
+			acc(func() []int64 { return i64s(h.HardwareAddressTarget()) }),
+			acc(func() []int64 { return i64s(h.ProtocolAddressTarget()) }),
+			acc(func() []int64 { return one(b2i(h.IsValid())) }),
+		}
+	}
+}
+
+// validHeader builds a header of the given kind with the library's own encoder plus a payload.
+func validHeader(kind int) []byte {
+	b := make([]byte, hdrSize[kind]+r.Intn(24))
+	copy(b, r.Bytes(len(b)))
+	f := genFields(kind, true)
+	if kind == 1 { // make lengths plausible so that Payload() succeeds often
+		f[0] = one(int64(20 + 4*r.Intn(2)))
+		f[2] = one(int64(len(b) - r.Intn(3)))
+	}
+	if kind == 2 {
+		f[2] = one(int64(len(b) - 40 - r.Intn(2)))
+	}
+	if kind == 4 {
+		f[4] = one(int64(20 + 4*r.Intn(3)))
+	}
+	try(func() { encode(kind, b, f) })
+	return b
+}
+
+func genHeaders(tier string) {
+	n := 1
+	if tier == "thorough" {
+		n = 12
+	}
+	for kind := 1; kind <= 9; kind++ {
+		size := hdrSize[kind]
+		// Encode
+		for i := 0; i < 130*n; i++ {
+			wf := i%6 != 5
+			l := size + r.Intn(12)
+			if i%7 == 6 {
+				l = r.Intn(size)
+			}
+			b0 := content(2*(i%2), l)
+			f := genFields(kind, wf)
+			out := exact(b0)
+			pan := try(func() { encode(kind, out, f) })
+			if pan {
+				out = []byte{}
+			}
+			emit(fmt.Sprintf("enc%d", kind), "CEnc %d %s %s %s %s", kind, zl(b0), ll(f), bs(pan), zl(out))
+		}
+		// accessors on valid / truncated / mutated / random byte strings
+		for i := 0; i < 170*n; i++ {
+			var b []byte
+			switch i % 5 {
+			case 0, 1:
+				b = validHeader(kind)
+			case 2:
+				b = validHeader(kind)
+				b = b[:r.Intn(len(b)+1)]
+			case 3:
+				b = validHeader(kind)
+				for m := 0; m <= r.Intn(3); m++ {
+					b[r.Intn(len(b))] = byte(r.Pick32(b8))
+				}
+			default:
+				b = r.Bytes(r.Intn(size + 16))
+			}
+			b = exact(b)
+			emit(fmt.Sprintf("acc%d", kind), "CAcc %d %s %s", kind, zl(b), ll(accessors(kind, b)))
+		}
+		// every truncation length of one valid header
+		vb := validHeader(kind)
+		for l := 0; l <= len(vb); l++ {
+			b := exact(vb[:l])
+			emit(fmt.Sprintf("acc%d", kind), "CAcc %d %s %s", kind, zl(b), ll(accessors(kind, b)))
+		}
+	}
+	// helper functions
+	for i := 0; i < 150*n; i++ {
+		var b []byte
+		mk := func(kind int) []byte {
+			switch i % 4 {
+			case 0, 1:
+				return exact(validHeader(kind))
+			case 2:
+				x := validHeader(kind)
+				return exact(x[:r.Intn(len(x)+1)])
+			default:
+				return exact(r.Bytes(r.Intn(hdrSize[kind] + 20)))
+			}
+		}
+		fn := func(id int, b []byte, args []int64, f func(c []byte) []int64) {
+			c := exact(b)
+			emit(fmt.Sprintf("fn%d", id), "CFn %d %s %s %s", id, zl(b), il(args), il(acc(func() []int64 { return f(c) })))
+		}
+		b = mk(1)
+		sizes := []int64{int64(len(b)), int64(len(b)) - 1, 20, 0, 65535, int64(r.Intn(80))}
+		ps := sizes[r.Intn(len(sizes))]
+		fn(1, b, []int64{ps}, func(c []byte) []int64 { return one(b2i(header.IPv4(c).IsValid(int(ps)))) })
+		partial, tl := p16(), p16()
+		fn(5, b, []int64{int64(partial), int64(tl)}, func(c []byte) []int64 {
+			header.IPv4(c).EncodePartial(partial, tl)
+			return i64s(c)
+		})
+		fn(10, b, nil, func(c []byte) []int64 {
+			h := header.IPv4(c)
+			h.SetChecksum(0)
+			x := h.CalculateChecksum()
+			h.SetChecksum(^x)
+			return []int64{int64(x), int64(h.CalculateChecksum())}
+		})
+		b = mk(2)
+		ps = []int64{int64(len(b)), int64(len(b)) - 1, 40, 0, 65535, int64(r.Intn(100))}[r.Intn(6)]
+		fn(2, b, []int64{ps}, func(c []byte) []int64 { return one(b2i(header.IPv6(c).IsValid(int(ps)))) })
+		b = mk(4)
+		partial, tl = p16(), p16()
+		fn(6, b, []int64{int64(partial), int64(tl)}, func(c []byte) []int64 {
+			return one(int64(header.TCP(c).CalculateChecksum(partial, tl)))
+		})
+		fn(12, b, []int64{int64(partial), int64(tl)}, func(c []byte) []int64 {
+			h := header.TCP(c)
+			h.SetChecksum(0)
+			x := h.CalculateChecksum(partial, tl)
+			h.SetChecksum(^x)
+			return []int64{int64(x), int64(h.CalculateChecksum(partial, tl))}
+		})
+		seq, ack, fl, wnd := p32(), p32(), p8(), p16()
+		fn(7, b, []int64{int64(partial), int64(tl), int64(seq), int64(ack), int64(fl), int64(wnd)}, func(c []byte) []int64 {
+			header.TCP(c).EncodePartial(partial, tl, seq, ack, fl, wnd)
+			return i64s(c)
+		})
+		b = mk(5)
+		fn(8, b, []int64{int64(partial), int64(tl)}, func(c []byte) []int64 {
+			return one(int64(header.UDP(c).CalculateChecksum(partial, tl)))
+		})
+		fn(11, b, []int64{int64(partial), int64(tl)}, func(c []byte) []int64 {
+			h := header.UDP(c)
+			h.SetChecksum(0)
+			x := h.CalculateChecksum(partial, tl)
+			h.SetChecksum(^x)
+			return []int64{int64(x), int64(h.CalculateChecksum(partial, tl))}
+		})
+	}
+}
 
 func main() {
 	log.SetOutput(io.Discard)
 	seed := flag.Uint64("seed", 1, "seed")
 	tier := flag.String("tier", "quick", "quick|thorough|search")
+	only := flag.String("only", "", "checksum|options|headers (default: all)")
 	flag.Parse()
-	_ = tier
-	w := bufio.NewWriter(os.Stdout)
+	w = bufio.NewWriterSize(os.Stdout, 1<<20)
 	defer w.Flush()
-	r := gen.New(*seed)
-	for l := 0; l <= 100; l++ {
-		b := r.Bytes(l)
-		fmt.Fprintf(w, "CChecksum %s %d %d\n", zl(b), 7, header.Checksum(b, 7))
+	r = gen.New(*seed)
+	if *only == "" || *only == "checksum" {
+		genChecksum(*tier)
+	}
+	if *only == "" || *only == "options" {
+		genOptions(*tier)
+	}
+	if *only == "" || *only == "headers" {
+		genHeaders(*tier)
+	}
+	fmt.Fprintf(w, "# generator: seed=%d tier=%s\n", *seed, *tier)
+	for _, k := range []string{"checksum", "combine", "chunks", "pseudo", "verify", "items", "syn", "opt", "synmake", "optmake", "pad"} {
+		fmt.Fprintf(w, "# cases %s=%d\n", k, counts[k])
+	}
+	for kind := 1; kind <= 9; kind++ {
+		fmt.Fprintf(w, "# cases header kind %d: enc=%d acc=%d\n", kind, counts[fmt.Sprintf("enc%d", kind)], counts[fmt.Sprintf("acc%d", kind)])
+	}
+	for _, id := range []int{1, 2, 5, 6, 7, 8, 10, 11, 12} {
+		fmt.Fprintf(w, "# cases fn %d=%d\n", id, counts[fmt.Sprintf("fn%d", id)])
 	}
 }
